@@ -198,8 +198,25 @@ func readerDocs(thorough bool) map[string][]byte {
 		"depth10000":  []byte(strings.Repeat("[", 10000) + strings.Repeat("]", 10000)),
 		"odepth10000": []byte(strings.Repeat(`{"a":`, 10000) + "1" + strings.Repeat("}", 10000)),
 	}
+	// nested escaped member names (inner longer than outer) and escaped names whose string values
+	// sit round the sizes of scratch blocks
+	d["escapedkeys"] = []byte(`{"` + "\\" + `ta":{"` + "\\" + `tb":{"` + "\\" + `tc":1}}}`)
+	d["escapedkeys2"] = []byte(`{"k` + "\\" + `t1":{"inner` + "\\" + `tlonger_member_name":1}}`)
+	// reads that fail INSIDE a string or member name, and documents whose strings begin with the
+	// same bytes (state refreshed on the failing path)
+	d["strtrunc"] = []byte(`["abc`)
+	d["strfull"] = []byte(`["abcdef",1]`)
+	d["topstrtrunc"] = []byte(`"abc`)
+	d["topstrfull"] = []byte(`"abcdef"`)
+	d["keytrunc"] = []byte(`{"ab`)
+	d["keyfull"] = []byte(`{"abcd":1,"ab":2}`)
+	d["esctrunc"] = []byte(`["a` + "\\" + `n` + "\\")
+	d["escfull"] = []byte(`["a` + "\\" + `n` + "\\" + `tb"]`)
+	d["strs2"] = []byte(`["` + "\\" + `t","y"]`)
+	for _, L := range []int{64, 300, 512, 2048} {
+		d[fmt.Sprintf("esckey-str%d", L)] = []byte(`{"k` + "\\" + `te":"` + strings.Repeat("x", L) + `","k2` + "\\" + `n":"` + strings.Repeat("y", L) + `"}`)
+	}
 	if thorough {
-		d["escapedkeys"] = []byte(`{"` + "\\" + `ta":{"` + "\\" + `tb":{"` + "\\" + `tc":1}}}`)
 		d["odepth10001"] = []byte(strings.Repeat(`{"a":`, 10001) + "1" + strings.Repeat("}", 10001))
 		d["siblings"] = []byte(`[[[],[[],[]]],[[],[[[]]]]]`)
 	}
@@ -329,7 +346,7 @@ func c15(r *eng.Run) {
 	// a refactoring); short histories are therefore also enumerated outright
 	var cheap []int
 	for i, op := range sys.ops {
-		if (len(op.doc) < 200 || strings.HasPrefix(op.name, "ReadValue/arr1024") || strings.HasPrefix(op.name, "ReadArray/arr1024") || strings.HasPrefix(op.name, "ReadArray/arr256")) && op.miss == "hit" {
+		if (len(op.doc) < 200 || strings.Contains(op.name, "/esckey-str") || strings.HasPrefix(op.name, "ReadValue/arr1024") || strings.HasPrefix(op.name, "ReadArray/arr1024") || strings.HasPrefix(op.name, "ReadArray/arr256")) && op.miss == "hit" {
 			cheap = append(cheap, i)
 		}
 	}
@@ -387,7 +404,7 @@ func c15(r *eng.Run) {
 		if op.miss != "hit" {
 			continue
 		}
-		for _, dn := range []string{"arrs", "objs", "eof", "objpartial", "arrpartial", "null", "objsmall", "strs", "nestedempty"} {
+		for _, dn := range []string{"arrs", "objs", "eof", "objpartial", "arrpartial", "null", "objsmall", "strs", "strs2", "nestedempty", "strtrunc", "strfull"} {
 			if strings.HasSuffix(op.name, "/"+dn+"/hit") {
 				core = append(core, i)
 			}
@@ -397,11 +414,6 @@ func c15(r *eng.Run) {
 		sys.lazy = lazy
 		for _, a := range core {
 			for _, b := range core {
-				if lazy {
-					sys.Replay([]int{a}, b)
-					nPairs++
-					continue
-				}
 				for _, c := range core {
 					sys.Replay([]int{a, b}, c)
 					nPairs++
